@@ -7,6 +7,7 @@ import (
 	"strconv"
 	"strings"
 	"testing"
+	"time"
 
 	"pgregory.net/rapid"
 
@@ -953,7 +954,8 @@ func checkCase(c sortCase) (fw.Outcome, *fw.Violation) {
 	if cpu < 1 {
 		cpu = 1
 	}
-	s, err := run.NewSess(run.Opt{Dir: dir, CPU: cpu})
+	// generous lock wait: on a loaded machine the default 2 s can pass before the table file is opened
+	s, err := run.NewSess(run.Opt{Dir: dir, CPU: cpu, WaitTimeout: 10 * time.Minute})
 	if err != nil {
 		panic(err)
 	}
@@ -970,6 +972,12 @@ func checkCase(c sortCase) (fw.Outcome, *fw.Violation) {
 	zeroCount := cut.HasLimit && ((cut.Percent && cut.P100 <= 0) || (!cut.Percent && cut.N <= 0))
 	if qerr != nil {
 		cls := run.ErrClass(qerr)
+		if strings.Contains(qerr.Error(), "context deadline exceeded") {
+			// the file-lock wait timed out (machine overloaded): nothing was observed about sorting
+			fw.AddExtra("lock_wait_timeout_discarded", 1)
+			o.Discard = true
+			return o, nil
+		}
 		if cls == "fatal" {
 			if cut.WithTies && ordered && zeroCount {
 				return o, fw.V("limit_zero_with_ties_fatal", "%s on %d rows: %v", sql, n, qerr)
